@@ -8,6 +8,7 @@ package main
 
 import (
 	"go/types"
+	"sort"
 	"strings"
 
 	"golang.org/x/tools/go/ssa"
@@ -93,7 +94,7 @@ func collectEffects(p *Program, fns map[*ssa.Function]bool) []effect {
 		allInstrs(f, func(in ssa.Instruction) {
 			switch t := in.(type) {
 			case *ssa.Go:
-				out = append(out, effect{f, in, "go", shortCallee(in)})
+				out = append(out, effect{f, in, "go", goSig(in)})
 				return
 			case *ssa.Store:
 				if g, ok := rootOf(t.Addr).(*ssa.Global); ok && g.Pkg != nil && isModPkg(g.Pkg.Pkg.Path()) {
@@ -152,4 +153,43 @@ func globalRoot(v ssa.Value) *ssa.Global {
 
 func effectKey(e effect) string {
 	return outerFunc(e.Fn) + "/" + e.Kind + ":" + strings.ReplaceAll(e.What, " ", "")
+}
+
+// goSig names a goroutine start stably: a named callee by its name, an
+// anonymous body by the distinct callees it invokes (closure ordinals shift
+// whenever an unrelated closure is added to the enclosing function).
+func goSig(in ssa.Instruction) string {
+	c := callOf(in)
+	f := calleeFunc(c)
+	if f == nil || f.Parent() == nil {
+		return shortCallee(in)
+	}
+	set := map[string]bool{}
+	for _, g := range withClosures(f) {
+		allInstrs(g, func(x ssa.Instruction) {
+			cc := callOf(x)
+			if cc == nil {
+				return
+			}
+			if cc.IsInvoke() {
+				set[cc.Method.Name()] = true
+				return
+			}
+			if sf := cc.StaticCallee(); sf != nil && sf.Parent() == nil {
+				n := shortFunc(sf)
+				if !strings.HasPrefix(n, "log.") && !strings.HasPrefix(n, "fmt.") {
+					set[n] = true
+				}
+			}
+		})
+	}
+	var names []string
+	for n := range set {
+		names = append(names, n)
+	}
+	sort.Strings(names)
+	if len(names) > 4 {
+		names = names[:4]
+	}
+	return "func{" + strings.Join(names, ",") + "}"
 }
